@@ -48,6 +48,7 @@ func mustSchema(sdl string) *gast.Schema {
 // subgraph requests in flight together), chains of @requires
 var curated = map[string][]string{
 	"S-core": {`{me {nick} user(id: "u1") {nick}}`, `{me {reviews {body}} user(id: "u1") {reviews {body}}}`, `{me {favorite {title}} topProducts(first: 1) {title}}`},
+	"S-nreq": {`{accounts {label name}}`, `{accounts {id label note name}}`, `{accounts {badge label address {city} note}}`, `{account {label name}}`},
 	"S-req":  {`{items {summary}}`, `{items {id summary volume}}`, `{boxes {content {summary}}}`, `{item(id: "i1") {summary shipping}}`},
 }
 
@@ -78,7 +79,7 @@ func families(run *vk.Run) []*family {
 		}
 		return f
 	}
-	core, abs, req, shapes := fedlab.SCore(), fedlab.SAbs(), fedlab.SReq(), fedlab.SShapes()
+	core, abs, req, shapes, nreq := fedlab.SCore(), fedlab.SAbs(), fedlab.SReq(), fedlab.SShapes(), fedlab.SNReq()
 	return []*family{
 		mk("S-core", core, fedlab.SCoreUniverse(core), func(t, f string) [][]fedlab.ArgUse {
 			switch t + "." + f {
@@ -145,6 +146,26 @@ func families(run *vk.Run) []*family {
 		// two-jump key routes: sg0 -sku-> sg1 -upc-> sg2 (a failed first jump must
 		// take the second one with it)
 		keysChain(run),
+		// @requires inputs that cross an entity boundary: the fetch that provides the
+		// input runs on accounts.@.address, the dependant is built from accounts - a
+		// failed entity is NESTED in the dependant's parent object
+		mk("S-nreq", nreq, fedlab.SNReqUniverse(nreq), nil, func(r fedlab.FieldRef) int {
+			switch r.String() {
+			case "Address.zip", "Address.city":
+				return 1
+			case "Account.label", "Account.badge":
+				return 2
+			}
+			return 0
+		}, func(r fedlab.FieldRef) int {
+			switch r.String() {
+			case "Address.zip", "Account.badge":
+				return 1
+			case "Account.label", "Address.city", "Account.note":
+				return 2
+			}
+			return 0
+		}),
 	}
 }
 
